@@ -14,7 +14,7 @@ func init() {
 		ID:    "C13.turn",
 		Props: []string{"C13"},
 		Doc:   "orientation(p,q,s) interpreted over all 3^6 lattice models equals the sign of the cross product (left/right/collinear); both hull loops of monotoneChain pop on exactly the same predicate `orientation(...) != leftTurn` (collinear points are dropped on both chains, so no three consecutive hull vertices are collinear)",
-		Floor: 3,
+		Floor: 2,
 		Run:   runC13Turn,
 	})
 	register(&Rule{
@@ -66,26 +66,49 @@ func runC13Turn(c *Ctx) {
 		c.Errorf("anchor geom.monotoneChain does not resolve")
 		return
 	}
+	// orientation tests of the chain: in monotoneChain itself, or in helpers
+	// introduced after the baseline that it calls (each call of such a helper
+	// counts once per test it contains)
 	n := 0
-	for _, call := range callsTo(f, "geom.orientation") {
-		n++
-		v := call.Value()
-		ok := false
-		desc := "result not compared"
-		if v != nil {
-			for _, r := range *v.Referrers() {
-				if bo, isBo := r.(*ssa.BinOp); isBo {
-					k, isC := constInt(bo.Y)
-					desc = fmt.Sprintf("orientation %s %d", bo.Op, k)
-					if isC && k == left && bo.Op == token.NEQ {
-						ok = true
+	var visit func(g *ssa.Function, mult, depth int)
+	visit = func(g *ssa.Function, mult, depth int) {
+		for _, call := range callsTo(g, "geom.orientation") {
+			n += mult
+			v := call.Value()
+			ok := false
+			desc := "result not compared"
+			if v != nil {
+				for _, r := range *v.Referrers() {
+					if bo, isBo := r.(*ssa.BinOp); isBo {
+						k, isC := constInt(bo.Y)
+						desc = fmt.Sprintf("orientation %s %d", bo.Op, k)
+						if isC && k == left && bo.Op == token.NEQ {
+							ok = true
+						}
 					}
 				}
 			}
+			c.Check(ok, call.Pos(), FuncName(g), "pop condition of a hull loop", "pops while orientation != leftTurn", "a hull loop pops on `"+desc+"` instead of `orientation != leftTurn`: the two chains treat collinear points differently (collinear or concave vertices survive on one chain)")
 		}
-		c.Check(ok, call.Pos(), FuncName(f), "pop condition of a hull loop", "pops while orientation != leftTurn", "a hull loop pops on `"+desc+"` instead of `orientation != leftTurn`: the two chains treat collinear points differently (collinear or concave vertices survive on one chain)")
+		if depth >= 3 {
+			return
+		}
+		cnt := map[*ssa.Function]int{}
+		var order []*ssa.Function
+		eachCall(g, func(ci ssa.CallInstruction) {
+			if cal := staticCallee(ci); cal != nil && cal != g && isNewHelper(cal) {
+				if cnt[cal] == 0 {
+					order = append(order, cal)
+				}
+				cnt[cal]++
+			}
+		})
+		for _, cal := range order {
+			visit(cal, mult*cnt[cal], depth+1)
+		}
 	}
-	if n != 2 {
+	visit(f, 1, 0)
+	if n < 2 {
 		c.Errorf("monotoneChain has %d orientation tests, expected 2 (lower and upper hull)", n)
 	}
 }
